@@ -263,6 +263,13 @@ def run_C06(ctx):
     ctx.l2_phase("sort-python-layer", "Session", consts, ("l2replay", "h_generic"), invariants=["Closed"], seed_tlc=True,
                  require_actions=["SortOp"], sample_cases=(12000 if ctx.quick() else 200000), timeout=900,
                  reuse=(r1 if ctx.quick() else None))
+    # sort / argsort on every leaf dtype (values 0, 1, 2 fit all of them; NaN for the float types)
+    consts = session_consts(OpSet='{"sort"}', Classes='{"ListOffset","IndexedOption","Regular"}', MaxDepth="1", Axes="{-1,0,1}",
+                            LeafSet='{Numpy(dt, d) : dt \\in {"float32", "int32", "int16", "int8", "uint8", "uint32", "bool"}, '
+                                    'd \\in {<<>>, <<1>>, <<1, 0>>, <<0, 1, 1>>}} \\cup {Numpy("float32", <<1, -777, 0>>), Numpy("uint8", <<2, 0, 1>>)}',
+                            SortArgs="AllSortArgs")
+    ctx.tlc_phase("sort-dtypes", "Session", consts, invariants=["Refines", "Closed"],
+                  require_actions=["SortOp", "WrapListOffset"], sample_cases=(100000 if ctx.quick() else None))
     ctx.chain_phase("chains-code-to-spec", (4000 if ctx.quick() else 60000), 5, ops={"sort", "argsort", "sortbyarg"})
     ctx.pychain_phase("python-chains-code-to-spec", (4000 if ctx.quick() else 60000), 5, ops={"sort", "argsort", "sortbyarg"})
     return ctx.finish(assumptions=["float leaves hold small integers and NaN only; strings are not modelled yet",
